@@ -7,6 +7,10 @@ WIterB == [kind |-> "iter", x0 |-> 0, b |-> 131072, n |-> 3, tol |-> 256]
 WArrA  == [kind |-> "array", x0 |-> 0, shape |-> <<2, 2>>, target |-> <<3, 3>>]
 WArrB  == [kind |-> "array", x0 |-> 0, shape |-> <<2, 2>>, target |-> <<1, 4>>]
 WPlain == [kind |-> "plain", x0 |-> 5]
+WRefA  == [kind |-> "ref", x0 |-> 1]
+WRefB  == [kind |-> "ref", x0 |-> 10]
+WorkRR == 1 :> WRefA @@ 2 :> WRefB
+WorkRA == 1 :> WRefA @@ 2 :> WArrB
 WorkII == 1 :> WIterA @@ 2 :> WIterB
 WorkIA == 1 :> WIterA @@ 2 :> WArrB
 WorkAA == 1 :> WArrA @@ 2 :> WArrB
